@@ -186,12 +186,14 @@ func runC16(c *rt.Ctx) {
 		for _, n := range []int{1, 2, 3} {
 			for _, vlen := range []int{n * p, (n-1)*p + 1} {
 				for _, kind := range []string{"set", "add", "replace"} {
-					for _, ttl := range ttls {
+					for ti, ttl := range append(append([]uint32{}, ttls...), 0, 100) {
+						// (the last two: the quiet forms SETQ/ADDQ/REPLACEQ, which only binary clients send)
+						quiet := ti >= len(ttls)
 						var ops []wire.Op
 						if kind == "replace" {
 							ops = append(ops, wire.Op{Kind: "set", Key: key, Val: "x", Flags: 9})
 						}
-						ops = append(ops, wire.Op{Kind: kind, Key: key, VGen: true, VLen: vlen, VSeed: vlen + int(ttl%97), Flags: 1, TTL: ttl})
+						ops = append(ops, wire.Op{Kind: kind, Key: key, VGen: true, VLen: vlen, VSeed: vlen + int(ttl%97), Flags: 1, TTL: ttl, QuietW: quiet})
 						sc := ChunkScenario{Harness: "C16", Ops: ops}
 						var r *ChunkResult
 						var clause, detail string
@@ -208,8 +210,8 @@ func runC16(c *rt.Ctx) {
 						})
 						c.Eval(1)
 						c.Trace(1)
-						c.Distinct(fmt.Sprintf("ttl|%d|%d|%s|%d", kl, vlen, kind, ttl))
-						c.Nontrivial(fmt.Sprintf("ttl|%d|%d|%s|%d", kl, vlen, kind, ttl))
+						c.Distinct(fmt.Sprintf("ttl|%d|%d|%s|%d|%v", kl, vlen, kind, ttl, quiet))
+						c.Nontrivial(fmt.Sprintf("ttl|%d|%d|%s|%d|%v", kl, vlen, kind, ttl, quiet))
 						for _, f := range r.Findings {
 							c.Violation(f.Sig, f.What, sc)
 						}
